@@ -166,7 +166,20 @@ def build(stack):
 
     def render_any(context):
         return Response(repr(context).encode('utf-8'), content_type='text/plain')
-    routes = [('/ctxlist', ep_ctxlist, render_any), ('/ctxstr', ep_ctxstr, render_any),
+    def ep_textchunks():
+        return Response([u'h\xe9llo ', u'w\xf6rld ' * 300], content_type='text/plain; charset=utf-8')   # text chunks
+
+    def ep_noctype():
+        r = Response(b'raw bytes ' * 300)
+        del r.headers['Content-Type']
+        return r
+
+    def ep_204():
+        r = Response(status=204)
+        del r.headers['Content-Type']
+        return r
+    routes = [('/textchunks', ep_textchunks), ('/noctype', ep_noctype), ('/nocontent', ep_204),
+              ('/ctxlist', ep_ctxlist, render_any), ('/ctxstr', ep_ctxstr, render_any),
               ('/resp', ep_resp), ('/ctx', ep_ctx, render), ('/stream', ep_stream), ('/deflated', ep_deflated), ('/redir', ep_redir),
               ('/branch/', ep_resp),
               ('/raise4', raise4), ('/ret4', ret4), ('/raise5', raise5), ('/nb', nb), ('/nb', second), ('/boom', boom),
@@ -195,6 +208,9 @@ def request_catalogue():
     for ck in sorted(COOKIE_HDRS):
         out.append((ck, '/resp', 'GET', 'b=kb', b''))
     out.append(('cookie-nonascii-key-404', '/zz/top', 'GET', '', b''))
+    out.append(('textchunks', '/textchunks', 'GET', '', b''))
+    out.append(('noctype', '/noctype', 'GET', '', b''))
+    out.append(('nocontent', '/nocontent', 'GET', '', b''))
     out.append(('ctxlist', '/ctxlist', 'GET', '', b''))
     out.append(('ctxstr', '/ctxstr', 'GET', '', b''))
     out.append(('post', '/post', 'POST', '', b'p=1&n=abc'))
